@@ -118,6 +118,8 @@ type World struct {
 	// being reported (fault injection); the model is then left unchanged.
 	Tolerant bool
 	LastErr  error
+	// LastClass: outcome class of the last batch call
+	LastClass string
 	// pending (async) bookkeeping is not needed by the model: reads see writes at once
 	closed bool
 }
@@ -465,6 +467,7 @@ func (w *World) applyBatch(op Op) {
 		want := w.expectMany(objs, recs)
 		n, err := w.DB.InsertOrUpdateMany(objs...)
 		got := classify(err)
+		w.LastClass = got
 		if w.Tolerant && err != nil && got != want {
 			w.LastErr = err
 			return
